@@ -22,7 +22,14 @@ HOSTILE = ["@@ foo @@", "@@ -1 +99999999999999999999999 @@", "@@ -٣ +1 @@", "di
            "Only in ", "index ", "\x1b[", "\x1b[31", "\x1b[!!m", "\x1b]8;;http://x\x1b\\link\x1b]8;;\x1b\\", "\x1b[0K", "\x1b(B",
            "\x1b[38;5;300m", "\x1b[38;2;1;2m", "\r", "a\rb", "\t\t\t", "", " ", "\\ No newline at end of file", "commit ", "commit abc",
            "{\"type\":\"match\"}", "{", "abcd1234 (Author 2020-01-01 00:00:00 +0000 1) x", "src/a.rs:1:fn x", "a.rs-1-ctx", "--",
-           "日本語" * 30, "a" * 600, "́́́", "﻿", "x\x00y"]
+           "日本語" * 30, "a" * 600, "́́́", "﻿", "x\x00y",
+           # hunk lines whose marker columns are not ASCII (cut points of the byte-indexed prefix removal)
+           "+é y", "é+ y", " é x", "é", "-é-", "+​+", "日本", " 日",
+           # rg --json records with numbers at the edge of u64 and tabs in the text
+           '{"type":"match","data":{"path":{"text":"a.rs"},"lines":{"text":"a\\tb foo\\n"},"line_number":18446744073709551615,"absolute_offset":0,'
+           '"submatches":[{"match":{"text":"foo"},"start":18446744073709551615,"end":18446744073709551615}]}}',
+           '{"type":"match","data":{"path":{"text":"a.rs"},"lines":{"text":"\\tfoo\\n"},"line_number":1,"absolute_offset":0,'
+           '"submatches":[{"match":{"text":"foo"},"start":9223372036854775808,"end":3}]}}']
 
 MODES = [
     [], ["--side-by-side"], ["--line-numbers"], ["--side-by-side", "--line-numbers"], ["--color-only"], ["--raw"],
@@ -38,6 +45,9 @@ MODES = [
     ["--hunk-header-style", "file line-number syntax"], ["--grep-output-type", "classic"], ["--grep-output-type", "ripgrep"],
     ["--line-numbers", "--line-numbers-left-format", "{nm:^1}", "--line-numbers-right-format", "{np:>12}|"],
     ["--zero-style", "syntax #222222", "--line-fill-method", "spaces"],
+    # raw styles for hunk lines: the raw line (with its escape sequences) is sliced instead of the stripped one
+    ["--zero-style", "raw", "--plus-style", "raw", "--minus-style", "raw"], ["--plus-style", "raw"], ["--minus-style", "raw"],
+    ["--zero-style", "raw", "--side-by-side"], ["--plus-style", "raw", "--minus-style", "raw", "--line-numbers"],
 ]
 WIDTHS = [None, "1", "2", "3", "4", "5", "6", "7", "8", "9", "10", "11", "12", "13", "14", "15", "16", "17", "18", "19", "20", "40",
           "79", "80", "200", "variable"]
@@ -65,7 +75,8 @@ OPTION_VALUES = [
     ("--features", ["", "x", "a b c", "side-by-side line-numbers decorations navigate"]),
     ("--syntax-theme", ["", "x", "none"]), ("--default-language", ["", "x", "../../etc/passwd", "rs"]),
     ("--paging", ["x"]), ("--true-color", ["x"]), ("--diff-stat-align-width", ["0", "-1", "x", "18446744073709551615"]),
-    ("--merge-conflict-begin-symbol", ["", "日", "ab"]), ("--hyperlinks-file-link-format", ["", "{", "{path", "{x}", "%"]),
+    ("--merge-conflict-begin-symbol", ["", "日", "ab", "\u200b", "\u0301", "\t", "\u200b\u200d"]),
+    ("--merge-conflict-end-symbol", ["", "日", "\u200b", "\u0301", "\t"]), ("--hyperlinks-file-link-format", ["", "{", "{path", "{x}", "%"]),
     ("--hyperlinks-commit-link-format", ["", "{commit", "{x}"]), ("--word-diff-regex", ["", "(", "\\", "(?=x)", "."]),
     ("--tokenization-regex", ["", "("]),
 ]
@@ -101,7 +112,10 @@ def gen_grep(rng):
         p, n, code = rng.choice(GREP_PATHS), rng.choice([0, 1, 7, 7, 120, 18446744073709551615]), rng.choice(M.BODIES)
         if js:
             k = len(code.encode())
-            sub = [{"match": {"text": "x"}, "start": rng.randint(0, k + 3), "end": rng.randint(0, k + 6)}] if rng.random() < 0.7 else []
+            if rng.random() < 0.3:
+                code = rng.choice(["\t", "a\tb ", "\t\t"]) + code
+            edge = lambda v: rng.choice([2 ** 64 - 1, 2 ** 64 - 2, 2 ** 63, 2 ** 32]) if rng.random() < 0.15 else v
+            sub = [{"match": {"text": "x"}, "start": edge(rng.randint(0, k + 3)), "end": edge(rng.randint(0, k + 6))}] if rng.random() < 0.7 else []
             out.append(_json.dumps({"type": rng.choice(["match", "context"]), "data": {"path": {"text": p}, "lines": {"text": code + "\n"},
                                     "line_number": n, "absolute_offset": 0, "submatches": sub}}))
         else:
@@ -227,9 +241,25 @@ def run(ctx, rep):
                 for extra in ([], ["--line-numbers-left-format", "", "--line-numbers-right-format", ""]):
                     jobs.append((["--no-gitconfig", "--side-by-side", "--width", str(w)] + wrap + extra, diff.encode()))
 
+    # (2b') every hostile line as a line of a hunk (unified, 2- and 3-parent combined) x the modes that treat hunk lines
+    #       differently (raw styles slice the raw line by bytes, side-by-side wraps it, line numbers count it)
+    frames = [("diff --git a/x.rs b/x.rs\n--- a/x.rs\n+++ b/x.rs\n@@ -1,3 +1,3 @@\n ctx\n", "+z\n"),
+              ("diff --cc x.rs\nindex 1,2..3\n--- a/x.rs\n+++ b/x.rs\n@@@ -1,2 -1,2 +1,3 @@@\n  a\n", "++z\n"),
+              ("diff --cc x.rs\nindex 1,2,3..4\n--- a/x.rs\n+++ b/x.rs\n@@@@ -1,2 -1,2 -1,2 +1,3 @@@@\n   a\n", "+++z\n")]
+    line_modes = [[], ["--zero-style", "raw", "--plus-style", "raw", "--minus-style", "raw"], ["--side-by-side"], ["--line-numbers"],
+                  ["--color-only"], ["--side-by-side", "--zero-style", "raw", "--plus-style", "raw", "--minus-style", "raw"],
+                  ["--keep-plus-minus-markers"]]
+    for hl in HOSTILE:
+        for pre, post in frames:
+            for lm in line_modes:
+                jobs.append((["--no-gitconfig"] + lm, (pre + hl + "\n" + post).encode("utf-8", "surrogateescape")))
+
     # (2c) hostile option values: a clean refusal (exit 2 with a message) is fine, a panic / unreachable / hang is not
     optjobs = []
     small = SWEEP_DIFFS[1][1].encode()
+    # a complete conflict region (the merge-conflict symbols and styles are used only there), a commit and a grep line
+    small += ("diff --cc m.rs\nindex 1,2..0\n--- a/m.rs\n+++ b/m.rs\n@@@ -1,3 -1,3 +1,7 @@@\n  ctx\n++<<<<<<< HEAD\n+ ours\n++||||||| base\n"
+              "++anc\n++=======\n +theirs\n++>>>>>>> br\n").encode()
     for opt, vals in OPTION_VALUES:
         for v in vals:
             for extra in ([], ["--side-by-side"], ["--navigate", "--paging=never"]):
